@@ -74,97 +74,97 @@ Qed.
 Lemma bridge_pub_uint8 v size : (v < 2^8)%N -> gcbor_encode_uint8 (Z.of_N v) (Z.of_N size) = zres (enc_uint8 v size 0).
 Proof.
   intros Hv.
-  first [ unfold gcbor_encode_uint8; cbv zeta; change 0 with (Z.of_N 0); apply bridge_encode_uint8; [exact Hv|pows; lia]
+  first [ unfold gcbor_encode_uint8; cbv zeta; fold_consts; change 0 with (Z.of_N 0); apply bridge_encode_uint8; [exact Hv|pows; lia]
         | unfold gcbor_encode_uint8, fbcbor_encode_uint8; rewrite !N2Z.id; reflexivity ].
 Qed.
 Lemma bridge_pub_uint16 v size : (v < 2^16)%N -> gcbor_encode_uint16 (Z.of_N v) (Z.of_N size) = zres (enc_uint16 v size 0).
 Proof.
   intros Hv.
-  first [ unfold gcbor_encode_uint16; cbv zeta; change 0 with (Z.of_N 0); apply bridge_encode_uint16; [exact Hv|pows; lia]
+  first [ unfold gcbor_encode_uint16; cbv zeta; fold_consts; change 0 with (Z.of_N 0); apply bridge_encode_uint16; [exact Hv|pows; lia]
         | unfold gcbor_encode_uint16, fbcbor_encode_uint16; rewrite !N2Z.id; reflexivity ].
 Qed.
 Lemma bridge_pub_uint32 v size : (v < 2^32)%N -> gcbor_encode_uint32 (Z.of_N v) (Z.of_N size) = zres (enc_uint32 v size 0).
 Proof.
   intros Hv.
-  first [ unfold gcbor_encode_uint32; cbv zeta; change 0 with (Z.of_N 0); apply bridge_encode_uint32; [exact Hv|pows; lia]
+  first [ unfold gcbor_encode_uint32; cbv zeta; fold_consts; change 0 with (Z.of_N 0); apply bridge_encode_uint32; [exact Hv|pows; lia]
         | unfold gcbor_encode_uint32, fbcbor_encode_uint32; rewrite !N2Z.id; reflexivity ].
 Qed.
 Lemma bridge_pub_uint64 v size : (v < 2^64)%N -> gcbor_encode_uint64 (Z.of_N v) (Z.of_N size) = zres (enc_uint64 v size 0).
 Proof.
   intros Hv.
-  first [ unfold gcbor_encode_uint64; cbv zeta; change 0 with (Z.of_N 0); apply bridge_encode_uint64; [exact Hv|pows; lia]
+  first [ unfold gcbor_encode_uint64; cbv zeta; fold_consts; change 0 with (Z.of_N 0); apply bridge_encode_uint64; [exact Hv|pows; lia]
         | unfold gcbor_encode_uint64, fbcbor_encode_uint64; rewrite !N2Z.id; reflexivity ].
 Qed.
 Lemma bridge_pub_uint v size : (v < 2^64)%N -> gcbor_encode_uint (Z.of_N v) (Z.of_N size) = zres (enc_uint v size 0).
 Proof.
   intros Hv.
-  first [ unfold gcbor_encode_uint; cbv zeta; change 0 with (Z.of_N 0); apply bridge_encode_uint; [exact Hv|pows; lia]
+  first [ unfold gcbor_encode_uint; cbv zeta; fold_consts; change 0 with (Z.of_N 0); apply bridge_encode_uint; [exact Hv|pows; lia]
         | unfold gcbor_encode_uint, fbcbor_encode_uint; rewrite !N2Z.id; reflexivity ].
 Qed.
 Lemma bridge_pub_negint8 v size : (v < 2^8)%N -> gcbor_encode_negint8 (Z.of_N v) (Z.of_N size) = zres (enc_uint8 v size 32).
 Proof.
   intros Hv.
-  first [ unfold gcbor_encode_negint8; cbv zeta; change 32 with (Z.of_N 32); apply bridge_encode_uint8; [exact Hv|pows; lia]
+  first [ unfold gcbor_encode_negint8; cbv zeta; fold_consts; change 32 with (Z.of_N 32); apply bridge_encode_uint8; [exact Hv|pows; lia]
         | unfold gcbor_encode_negint8, fbcbor_encode_negint8; rewrite !N2Z.id; reflexivity ].
 Qed.
 Lemma bridge_pub_negint16 v size : (v < 2^16)%N -> gcbor_encode_negint16 (Z.of_N v) (Z.of_N size) = zres (enc_uint16 v size 32).
 Proof.
   intros Hv.
-  first [ unfold gcbor_encode_negint16; cbv zeta; change 32 with (Z.of_N 32); apply bridge_encode_uint16; [exact Hv|pows; lia]
+  first [ unfold gcbor_encode_negint16; cbv zeta; fold_consts; change 32 with (Z.of_N 32); apply bridge_encode_uint16; [exact Hv|pows; lia]
         | unfold gcbor_encode_negint16, fbcbor_encode_negint16; rewrite !N2Z.id; reflexivity ].
 Qed.
 Lemma bridge_pub_negint32 v size : (v < 2^32)%N -> gcbor_encode_negint32 (Z.of_N v) (Z.of_N size) = zres (enc_uint32 v size 32).
 Proof.
   intros Hv.
-  first [ unfold gcbor_encode_negint32; cbv zeta; change 32 with (Z.of_N 32); apply bridge_encode_uint32; [exact Hv|pows; lia]
+  first [ unfold gcbor_encode_negint32; cbv zeta; fold_consts; change 32 with (Z.of_N 32); apply bridge_encode_uint32; [exact Hv|pows; lia]
         | unfold gcbor_encode_negint32, fbcbor_encode_negint32; rewrite !N2Z.id; reflexivity ].
 Qed.
 Lemma bridge_pub_negint64 v size : (v < 2^64)%N -> gcbor_encode_negint64 (Z.of_N v) (Z.of_N size) = zres (enc_uint64 v size 32).
 Proof.
   intros Hv.
-  first [ unfold gcbor_encode_negint64; cbv zeta; change 32 with (Z.of_N 32); apply bridge_encode_uint64; [exact Hv|pows; lia]
+  first [ unfold gcbor_encode_negint64; cbv zeta; fold_consts; change 32 with (Z.of_N 32); apply bridge_encode_uint64; [exact Hv|pows; lia]
         | unfold gcbor_encode_negint64, fbcbor_encode_negint64; rewrite !N2Z.id; reflexivity ].
 Qed.
 Lemma bridge_pub_negint v size : (v < 2^64)%N -> gcbor_encode_negint (Z.of_N v) (Z.of_N size) = zres (enc_uint v size 32).
 Proof.
   intros Hv.
-  first [ unfold gcbor_encode_negint; cbv zeta; change 32 with (Z.of_N 32); apply bridge_encode_uint; [exact Hv|pows; lia]
+  first [ unfold gcbor_encode_negint; cbv zeta; fold_consts; change 32 with (Z.of_N 32); apply bridge_encode_uint; [exact Hv|pows; lia]
         | unfold gcbor_encode_negint, fbcbor_encode_negint; rewrite !N2Z.id; reflexivity ].
 Qed.
 Lemma bridge_pub_bytestring_start v size : (v < 2^64)%N -> gcbor_encode_bytestring_start (Z.of_N v) (Z.of_N size) = zres (enc_uint v size 64).
 Proof.
   intros Hv.
-  first [ unfold gcbor_encode_bytestring_start; cbv zeta; change 64 with (Z.of_N 64); apply bridge_encode_uint; [exact Hv|pows; lia]
+  first [ unfold gcbor_encode_bytestring_start; cbv zeta; fold_consts; change 64 with (Z.of_N 64); apply bridge_encode_uint; [exact Hv|pows; lia]
         | unfold gcbor_encode_bytestring_start, fbcbor_encode_bytestring_start; rewrite !N2Z.id; reflexivity ].
 Qed.
 Lemma bridge_pub_string_start v size : (v < 2^64)%N -> gcbor_encode_string_start (Z.of_N v) (Z.of_N size) = zres (enc_uint v size 96).
 Proof.
   intros Hv.
-  first [ unfold gcbor_encode_string_start; cbv zeta; change 96 with (Z.of_N 96); apply bridge_encode_uint; [exact Hv|pows; lia]
+  first [ unfold gcbor_encode_string_start; cbv zeta; fold_consts; change 96 with (Z.of_N 96); apply bridge_encode_uint; [exact Hv|pows; lia]
         | unfold gcbor_encode_string_start, fbcbor_encode_string_start; rewrite !N2Z.id; reflexivity ].
 Qed.
 Lemma bridge_pub_array_start v size : (v < 2^64)%N -> gcbor_encode_array_start (Z.of_N v) (Z.of_N size) = zres (enc_uint v size 128).
 Proof.
   intros Hv.
-  first [ unfold gcbor_encode_array_start; cbv zeta; change 128 with (Z.of_N 128); apply bridge_encode_uint; [exact Hv|pows; lia]
+  first [ unfold gcbor_encode_array_start; cbv zeta; fold_consts; change 128 with (Z.of_N 128); apply bridge_encode_uint; [exact Hv|pows; lia]
         | unfold gcbor_encode_array_start, fbcbor_encode_array_start; rewrite !N2Z.id; reflexivity ].
 Qed.
 Lemma bridge_pub_map_start v size : (v < 2^64)%N -> gcbor_encode_map_start (Z.of_N v) (Z.of_N size) = zres (enc_uint v size 160).
 Proof.
   intros Hv.
-  first [ unfold gcbor_encode_map_start; cbv zeta; change 160 with (Z.of_N 160); apply bridge_encode_uint; [exact Hv|pows; lia]
+  first [ unfold gcbor_encode_map_start; cbv zeta; fold_consts; change 160 with (Z.of_N 160); apply bridge_encode_uint; [exact Hv|pows; lia]
         | unfold gcbor_encode_map_start, fbcbor_encode_map_start; rewrite !N2Z.id; reflexivity ].
 Qed.
 Lemma bridge_pub_tag v size : (v < 2^64)%N -> gcbor_encode_tag (Z.of_N v) (Z.of_N size) = zres (enc_uint v size 192).
 Proof.
   intros Hv.
-  first [ unfold gcbor_encode_tag; cbv zeta; change 192 with (Z.of_N 192); apply bridge_encode_uint; [exact Hv|pows; lia]
+  first [ unfold gcbor_encode_tag; cbv zeta; fold_consts; change 192 with (Z.of_N 192); apply bridge_encode_uint; [exact Hv|pows; lia]
         | unfold gcbor_encode_tag, fbcbor_encode_tag; rewrite !N2Z.id; reflexivity ].
 Qed.
 Lemma bridge_pub_ctrl v size : (v < 2^8)%N -> gcbor_encode_ctrl (Z.of_N v) (Z.of_N size) = zres (enc_uint8 v size 224).
 Proof.
   intros Hv.
-  first [ unfold gcbor_encode_ctrl; cbv zeta; change 224 with (Z.of_N 224); apply bridge_encode_uint8; [exact Hv|pows; lia]
+  first [ unfold gcbor_encode_ctrl; cbv zeta; fold_consts; change 224 with (Z.of_N 224); apply bridge_encode_uint8; [exact Hv|pows; lia]
         | unfold gcbor_encode_ctrl, fbcbor_encode_ctrl; rewrite !N2Z.id; reflexivity ].
 Qed.
 Lemma bridge_pub_bool v size : gcbor_encode_bool (Z.of_N v) (Z.of_N size) = zres (if (v =? 0)%N then enc_byte 0xF4 size else enc_byte 0xF5 size).
@@ -174,43 +174,43 @@ Proof.
           [ change (gcbor_encode_bool (Z.of_N 0) (Z.of_N size)) with (g_cbor_encode_byte (Z.of_N 244) (Z.of_N size))
           | change (gcbor_encode_bool (Z.of_N (N.pos p)) (Z.of_N size)) with (g_cbor_encode_byte (Z.of_N 245) (Z.of_N size)) ];
           apply bridge_encode_byte
-        | unfold gcbor_encode_bool; cbv zeta; change 245 with (Z.of_N 245); change 244 with (Z.of_N 244);
+        | unfold gcbor_encode_bool; cbv zeta; fold_consts; change 245 with (Z.of_N 245); change 244 with (Z.of_N 244);
           rewrite !bridge_encode_byte; unfold nz; destruct (N.eqb_spec v 0) as [->|Hne]; [reflexivity|];
           destruct (Z.eqb_spec (Z.of_N v) 0); [lia|reflexivity]
         | unfold gcbor_encode_bool, fbcbor_encode_bool; rewrite !N2Z.id; reflexivity ].
 Qed.
 Lemma bridge_pub_indef_bytestring_start size : gcbor_encode_indef_bytestring_start (Z.of_N size) = zres (enc_byte 95 size).
 Proof.
-  first [ unfold gcbor_encode_indef_bytestring_start; cbv zeta; change 95 with (Z.of_N 95); apply bridge_encode_byte
+  first [ unfold gcbor_encode_indef_bytestring_start; cbv zeta; fold_consts; change 95 with (Z.of_N 95); apply bridge_encode_byte
         | unfold gcbor_encode_indef_bytestring_start, fbcbor_encode_indef_bytestring_start; rewrite !N2Z.id; reflexivity ].
 Qed.
 Lemma bridge_pub_indef_string_start size : gcbor_encode_indef_string_start (Z.of_N size) = zres (enc_byte 127 size).
 Proof.
-  first [ unfold gcbor_encode_indef_string_start; cbv zeta; change 127 with (Z.of_N 127); apply bridge_encode_byte
+  first [ unfold gcbor_encode_indef_string_start; cbv zeta; fold_consts; change 127 with (Z.of_N 127); apply bridge_encode_byte
         | unfold gcbor_encode_indef_string_start, fbcbor_encode_indef_string_start; rewrite !N2Z.id; reflexivity ].
 Qed.
 Lemma bridge_pub_indef_array_start size : gcbor_encode_indef_array_start (Z.of_N size) = zres (enc_byte 159 size).
 Proof.
-  first [ unfold gcbor_encode_indef_array_start; cbv zeta; change 159 with (Z.of_N 159); apply bridge_encode_byte
+  first [ unfold gcbor_encode_indef_array_start; cbv zeta; fold_consts; change 159 with (Z.of_N 159); apply bridge_encode_byte
         | unfold gcbor_encode_indef_array_start, fbcbor_encode_indef_array_start; rewrite !N2Z.id; reflexivity ].
 Qed.
 Lemma bridge_pub_indef_map_start size : gcbor_encode_indef_map_start (Z.of_N size) = zres (enc_byte 191 size).
 Proof.
-  first [ unfold gcbor_encode_indef_map_start; cbv zeta; change 191 with (Z.of_N 191); apply bridge_encode_byte
+  first [ unfold gcbor_encode_indef_map_start; cbv zeta; fold_consts; change 191 with (Z.of_N 191); apply bridge_encode_byte
         | unfold gcbor_encode_indef_map_start, fbcbor_encode_indef_map_start; rewrite !N2Z.id; reflexivity ].
 Qed.
 Lemma bridge_pub_null size : gcbor_encode_null (Z.of_N size) = zres (enc_byte 246 size).
 Proof.
-  first [ unfold gcbor_encode_null; cbv zeta; change 246 with (Z.of_N 246); apply bridge_encode_byte
+  first [ unfold gcbor_encode_null; cbv zeta; fold_consts; change 246 with (Z.of_N 246); apply bridge_encode_byte
         | unfold gcbor_encode_null, fbcbor_encode_null; rewrite !N2Z.id; reflexivity ].
 Qed.
 Lemma bridge_pub_undef size : gcbor_encode_undef (Z.of_N size) = zres (enc_byte 247 size).
 Proof.
-  first [ unfold gcbor_encode_undef; cbv zeta; change 247 with (Z.of_N 247); apply bridge_encode_byte
+  first [ unfold gcbor_encode_undef; cbv zeta; fold_consts; change 247 with (Z.of_N 247); apply bridge_encode_byte
         | unfold gcbor_encode_undef, fbcbor_encode_undef; rewrite !N2Z.id; reflexivity ].
 Qed.
 Lemma bridge_pub_break size : gcbor_encode_break (Z.of_N size) = zres (enc_byte 255 size).
 Proof.
-  first [ unfold gcbor_encode_break; cbv zeta; change 255 with (Z.of_N 255); apply bridge_encode_byte
+  first [ unfold gcbor_encode_break; cbv zeta; fold_consts; change 255 with (Z.of_N 255); apply bridge_encode_byte
         | unfold gcbor_encode_break, fbcbor_encode_break; rewrite !N2Z.id; reflexivity ].
 Qed.
